@@ -70,12 +70,13 @@ func main() {
 		replay(run, run.Args[1:])
 		return
 	}
-	// C11_PARTS=a1,a2,c,l,b,b2,b3,b4 restricts a run to some parts (replay / development); the
+	// C11_PARTS=a1,a2,c,l,f,b,b2,b3,b4,b5 restricts a run to some parts (replay / development); the
 	// generators fork per part, so a part produces the same cases alone as in a full run.
 	timed("A1", on("a1"), func() { partA1(run, r.Fork(1)) })
 	timed("A2", on("a2"), func() { partA2(run, r.Fork(2)) })
 	timed("C", on("c"), func() { partC(run, r.Fork(3)) })
 	timed("L", on("l"), func() { partL(run, r.Fork(5)) })
+	timed("F", on("f"), func() { partF(run, r.Fork(8)) })
 	partB(run, r.Fork(4))
 }
 
